@@ -4,6 +4,7 @@ import GSProofs.C24
 import GSProofs.Lemmas.LoaderKahn
 import GSProofs.Lemmas.LoaderSched
 import GSProofs.Lemmas.LoaderComplete
+import GSProofs.Lemmas.ExchangeComplete
 import GSProofs.Lemmas.LoaderReplay
 import GSProofs.Lemmas.LoaderReplaySpec
 import GS.Model.Responder
@@ -304,6 +305,61 @@ theorem complete_prefix_held (rem : Cid → Bool) (loc : List (Cid × Blk)) (roo
     (root :: pre').map (fun m => (m, true)) ++ (walk { s4 with mra := none } (n :: post)).1 = (refTrav rem lt loc none).1 ∧
     ∀ c, holds (walk { s4 with mra := none } (n :: post)).2.store c = holds (refTrav rem lt loc none).2 c :=
   GS.Loader.complete_prefix_held rem loc root pre' n post hwf hroot0 hne hdfs hheld hmiss hrem
+
+/-- **bridge (executor loop = loader-level traversal).**  Once the request has been sent and while it
+    is not cancelled, the answers reported in the event stream of the executor loop `drive` (block
+    hook = a load answered with data, missing-block error = a skipped link) are exactly the results
+    of the loader-level traversal `walk` from the same loader state over the same cursor, and the
+    store at the end is the store `walk` ends with. -/
+theorem drive_walk (fuel : Nat) (s : Requestor.State) (hrun : s.phase = .running) (hsent : s.requestSent = true)
+    (hctx : s.ctxCancelled = false) (hdep : ∀ m ∈ s.todo, m.depth ≠ 0) (hf : s.todo.length + 1 ≤ fuel) :
+    resultsOf (drive fuel s).2 = (walk s.L s.todo).1.map keyOf ∧
+    (drive fuel s).1.L.store = (walk s.L s.todo).2.store :=
+  GS.Requestor.drive_walk fuel s hrun hsent hctx hdep hf
+
+/-- **C02.complete at the exchange level (event stream), non-empty local prefix.**  The composed
+    requestor model (executor + response routing + loader) runs the whole request: it loads the
+    `N = |root :: pre'|` links it holds from its own store, misses `n`, goes online and sends the
+    request with do-not-send-first-blocks = `N`; the honest response (`respItemsW` =
+    `Responder.respondSpec` for skip `N`, `honest_response_is_spec`) arrives as one message with the
+    successful terminal status the responder ends with (20 full / 21 partial).  Under the hypotheses of
+    `complete_prefix` — link tree well formed, and the NEGATION of the two known-finding classes:
+    `hremroot` (not `root-not-found-abort`) and `hwin` (not `skip-prefix-mismatch`) — the answers in
+    the event stream are exactly the reference traversal `refTrav`: in order, a block-hook delivery
+    for every available link and a `RemoteMissingBlockErr` for exactly the others; exactly one request
+    message was sent, with skip `N`; and the final local store holds exactly what `refTrav` says
+    (every block obtained from the responder is stored). -/
+theorem exchange_complete_prefix (rem : Cid → Bool) (loc : List (Cid × Blk)) (root : LNode) (pre' : LT) (n : LNode) (post : LT)
+    (st : Nat) (hst : st = 20 ∨ st = 21)
+    (hwf : WF (root :: pre' ++ n :: post))
+    (hroot0 : root.path = []) (hne : ∀ m ∈ pre' ++ n :: post, m.path ≠ [])
+    (hdep : ∀ m ∈ n :: post, m.depth ≠ 0)
+    (hdfs : PathsDFS ((root :: pre').map (·.path)))
+    (hheld : ∀ m ∈ root :: pre', holds loc m.cid = true) (hmiss : holds loc n.cid = false)
+    (hremroot : rem root.cid = true)
+    (hwin : ∀ it ∈ (respItemsW rem (root :: pre' ++ n :: post) [] (pre'.length + 1)).take (pre'.length + 1),
+        it.action = .present → holds loc it.link = true) :
+    let lt := root :: pre' ++ n :: post
+    let items := respItemsW rem lt [] (pre'.length + 1)
+    let evs := (exchange loc lt 0 [⟨true, true, st, mdOf items, blocksOfItems items⟩]).2
+    resultsOf evs = (refTrav rem lt loc none).1.map keyOf ∧
+    sentNews evs = [pre'.length + 1] ∧
+    ∀ c, holds (exchange loc lt 0 [⟨true, true, st, mdOf items, blocksOfItems items⟩]).1.L.store c =
+         holds (refTrav rem lt loc none).2 c := by
+  intro lt items evs
+  have hcp := GS.Loader.complete_prefix rem loc root pre' n post hwf hroot0 hne hdfs hheld hmiss hremroot hwin
+  obtain ⟨_, _, _, h4, h5⟩ := hcp
+  have hex := exchange_results_prefix loc (root :: pre') n post 0 st hst (mdOf items) (blocksOfItems items)
+    hheld hmiss hdep
+  refine ⟨?_, ?_, ?_⟩
+  · exact hex.1.trans (by rw [← List.map_append]; exact congrArg _ h4)
+  · have := GS.C24.skip loc (root :: pre') n post 0 [⟨true, true, st, mdOf items, blocksOfItems items⟩]
+      (fun m hm => hheld m hm) hmiss
+    have hmax : max 0 (root :: pre').length = pre'.length + 1 := by simp
+    rw [hmax] at this
+    exact this
+  · intro c
+    exact (congrArg (fun s => holds s c) hex.2).trans (h5 c)
 
 /-- non-vacuity of `complete_prefix`, outside `complete_prefix_held`: root 9 with children 1 (at
     `0/1`, itself with children 3 and 4), 2 (at `0/2`, inline sibling) and 5 (at `1`).  The requestor
